@@ -90,7 +90,7 @@ def gen_case(rng):
     opts = tg.make_opts(s)
     nb = rng.randint(1, 9)
     padded = rng.random() < 0.6
-    blocks = [tg.gen_block(rng, s, opts, pad=padded or rng.random() < 0.3, p_rf=0.45, p_g=0.45, p_adc=0.4, p_empty=0.12)
+    blocks = [tg.gen_block(rng, s, opts, pad=padded or rng.random() < 0.3, p_rf=0.45, p_g=0.45, p_adc=0.4, p_empty=0.12, p_solo=0.25)
               for _ in range(nb)]
     for b in blocks:
         # events handed over by pre-registered library id (set_block then takes the id and registers nothing)
